@@ -23,28 +23,63 @@ SINGLE = ("float32", "complex64")
 # ----------------------------------------------------------------------------------------------
 
 
-def _einsum(arrays, labels, out):
+def _plain_einsum(arrays, labels, out):
+    """numpy.einsum in sublist form over arbitrary hashable labels, one nested loop (no path optimisation)"""
     sym = {}
     for lab in labels:
         for x in lab:
             sym.setdefault(x, len(sym))
-    for x in out:
-        if x not in sym:
-            raise KeyError(f"output label {x!r} is not a label of the network")
     if len(sym) > 52:
-        raise RuntimeError("reference einsum: more than 52 labels")
+        raise RuntimeError("reference einsum: more than 52 labels in one elimination step")
     args = []
-    size = {}
     for a, lab in zip(arrays, labels):
         args.append(a)
         args.append([sym[x] for x in lab])
+    args.append([sym[x] for x in out])
+    return np.einsum(*args)
+
+
+def _einsum(arrays, labels, out):
+    """sum-of-products over all labels not in `out` (any multiplicity) by bucket elimination: repeatedly take the label
+    whose holders span the fewest index combinations, multiply its holders together and sum it out.  Plain numpy only;
+    the cost is bounded by the width of the network, not by the number of labels (networks with resolved hyper labels
+    have dozens of them)"""
+    out = tuple(out)
+    size = {}
+    for a, lab in zip(arrays, labels):
         for d, x in zip(np.shape(a), lab):
             size[x] = d
-    args.append([sym[x] for x in out])
-    space = 1.0
-    for d in size.values():
-        space *= d
-    return np.einsum(*args, optimize="greedy" if space > 5000 else False)
+    for x in out:
+        if x not in size:
+            raise KeyError(f"output label {x!r} is not a label of the network")
+    ts = [(np.asarray(a), tuple(lab)) for a, lab in zip(arrays, labels)]
+    while True:
+        todo = {x for _, lab in ts for x in lab if x not in out}
+        if not todo:
+            break
+        best = None
+        for x in sorted(todo):
+            union = set()
+            for _, lab in ts:
+                if x in lab:
+                    union.update(lab)
+            cost = 1.0
+            for y in union:
+                cost *= size[y]
+            if best is None or cost < best[0]:
+                best = (cost, x)
+        x = best[1]
+        bucket = [t for t in ts if x in t[1]]
+        ts = [t for t in ts if x not in t[1]]
+        keep = []
+        for _, lab in bucket:
+            for y in lab:
+                if y != x and y not in keep:
+                    keep.append(y)
+        ts.append((_plain_einsum([a for a, _ in bucket], [lab for _, lab in bucket], keep), tuple(keep)))
+    if not ts:
+        return np.ones(())
+    return _plain_einsum([a for a, _ in ts], [lab for _, lab in ts], out)
 
 
 def den(arrays, labels, out, exponent=0.0):
